@@ -3,6 +3,7 @@
 # <seeded-dir> contains patch.diff (+ demo file(s), meta.json). Creates a scratch worktree of /repo HEAD,
 # applies the patch, runs (1) the pinned baseline suite against the patched tree, (2) the listed checks
 # (default: meta.json "property") with VERIF_REPO pointing at it, and removes the worktree.
+VROOT="$(cd "$(dirname "$0")/.." && pwd)"
 d=$(cd "$1" && pwd); shift
 name=$(basename $d)
 wt=/tmp/wt-seed-$name
@@ -38,7 +39,7 @@ PY
   rm -rf $out
 fi
 for id in $ids; do
-  out=$(cd /verif && VERIF_REPO=$wt VERIF_EVIDENCE_DIR=/tmp/mut-evidence ./check $id 2>&1)
+  out=$(cd "$VROOT" && VERIF_REPO=$wt VERIF_EVIDENCE_DIR=/tmp/mut-evidence ./check $id 2>&1)
   if echo "$out" | grep -q "^VIOLATION"; then echo "SEEDED $name: $id CAUGHT: $(echo "$out" | grep -A1 '^VIOLATION' | sed -n 2p | cut -c1-200)";
   elif echo "$out" | grep -q "CHECK-BROKEN"; then echo "SEEDED $name: $id BROKEN: $(echo "$out" | grep -A3 CHECK-BROKEN | cut -c1-300)";
   else echo "SEEDED $name: $id MISSED"; fi
